@@ -22,7 +22,7 @@ def wide_objects():
 
 class C19(Prop):
     ID = "C19"
-    RULE = ("seed objects of 0-40 members with keys from a 20-key alphabet (duplicates, prefixes, case variants, the empty key, non-letters "
+    RULE = ("(family) 3-24 names sharing a beginning of 7..1000 bytes (partly in the other letter case), inserted in random or monotone order, sorted directly and through both generators and patch test: order, permutation, detach/insert of a middle member, append at the end, idempotence; (programs) seed objects of 0-40 members with keys from a 20-key alphabet (duplicates, prefixes, case variants, the empty key, non-letters "
             "adjacent to the case bit) and nested objects/arrays as values, plus C06 seed trees; operation programs mixing SortObject / "
             "SortObjectCaseSensitive on any object of any live tree, the utilities that sort internally (patch 'test', GeneratePatches, "
             "GenerateMergePatch, both case modes) and the C06 edit/query/print/delete operations. Oracle at each sort: keys non-decreasing "
